@@ -1,4 +1,6 @@
 import T4V.Text.DataCard
+import Mathlib.Order.MinMax
+import Mathlib.Order.Lattice
 /-!
 # Property C12 — exactly the zero-importance cells are left out (data-card expansion logic)
 
@@ -58,11 +60,101 @@ theorem repeat_zero (n : Nat) (i : Nat) (h : i < n + 1) :
     simp; omega
 end
 
-/-- with several IMP:x cards the importance of a cell is the maximum over the particle types (so,
-for non-negative importances, zero iff zero for every type) -/
+/-! ### which cells are left out: the importance of a cell and when it is zero -/
+section
+variable {β : Type} [LinearOrder β]
+
+theorem ifmax_eq (a b : β) : (if a < b then b else a) = max a b := by
+  rcases lt_trichotomy a b with h | h | h
+  · simp [h, max_eq_right h.le]
+  · subst h; simp
+  · simp [not_lt.mpr h.le, max_eq_left h.le]
+
+theorem maxOpt_some (a b : β) : maxOpt (some a) (some b) = some (max a b) := by
+  simp [maxOpt, ifmax_eq]
+
+theorem foldl_maxOpt_some (x : β) : ∀ (cs : List (List (Option β))) (xs : List β) (i : Nat),
+    cs.map (·.getD i none) = xs.map some →
+      cs.foldl (fun acc card => maxOpt acc (card.getD i none)) (some x) = some (xs.foldl max x)
+  | [], xs, i, h => by
+    cases xs with
+    | nil => rfl
+    | cons _ _ => simp at h
+  | c :: cs, xs, i, h => by
+    cases xs with
+    | nil => simp at h
+    | cons y ys =>
+      simp only [List.map_cons, List.cons.injEq] at h
+      simp only [List.foldl_cons, h.1, maxOpt_some]
+      exact foldl_maxOpt_some (max x y) cs ys i h.2
+
+/-- **with several `IMP:x` cards the importance of the cell in position `i` is the maximum of the entries `i`** -/
+theorem cards_rank_maximum (c : List (Option β)) (cs : List (List (Option β))) (i : Nat) (x : β) (xs : List β)
+    (hc : c.getD i none = some x) (hcs : cs.map (·.getD i none) = xs.map some) :
+    rankMax c cs i = some (xs.foldl max x) := by
+  unfold rankMax
+  simp only [List.foldl_cons, hc, maxOpt_some, max_self]
+  exact foldl_maxOpt_some x cs xs i hcs
+
+theorem foldl_max_ge (xs : List β) (x : β) : x ≤ xs.foldl max x ∧ ∀ v ∈ xs, v ≤ xs.foldl max x := by
+  induction xs generalizing x with
+  | nil => simp
+  | cons y ys ih =>
+    obtain ⟨h1, h2⟩ := ih (max x y)
+    refine ⟨le_trans (le_max_left x y) h1, ?_⟩
+    intro v hv
+    rcases List.mem_cons.mp hv with rfl | hv'
+    · exact le_trans (le_max_right x v) h1
+    · exact h2 v hv'
+
+theorem foldl_max_mem (xs : List β) (x : β) : xs.foldl max x = x ∨ xs.foldl max x ∈ xs := by
+  induction xs generalizing x with
+  | nil => left; rfl
+  | cons y ys ih =>
+    rw [List.foldl_cons]
+    rcases ih (max x y) with h | h
+    · rw [h]
+      rcases max_choice x y with hm | hm
+      · left; exact hm
+      · right; rw [hm]; exact List.mem_cons_self
+    · right; exact List.mem_cons_of_mem _ h
+
+/-- **the maximum of non-negative importances is zero exactly when every one of them is zero**: a cell is left out
+iff its importance is zero for every particle type -/
+theorem maximum_zero_iff_all_zero [Zero β] (x : β) (xs : List β) (hnn : ∀ v ∈ x :: xs, 0 ≤ v) :
+    xs.foldl max x = 0 ↔ ∀ v ∈ x :: xs, v = 0 := by
+  constructor
+  · intro h v hv
+    obtain ⟨h1, h2⟩ := foldl_max_ge xs x
+    have hle : v ≤ 0 := by
+      rcases List.mem_cons.mp hv with rfl | hv'
+      · rw [← h]; exact h1
+      · rw [← h]; exact h2 v hv'
+    exact le_antisymm hle (hnn v hv)
+  · intro h
+    rcases foldl_max_mem xs x with e | e
+    · rw [e]; exact h x List.mem_cons_self
+    · exact h _ (List.mem_cons_of_mem _ e)
+
+/-- the decision for one cell, keywords on the card first: with `IMP` keywords the cell is left out iff all of
+them are zero, whatever the data cards say -/
+theorem keyword_importance_zero_iff [Zero β] (v : β) (vs : List β) (cards : List (Option β)) (rank : Nat)
+    (hnn : ∀ w ∈ v :: vs, 0 ≤ w) :
+    cellImportance (v :: vs) cards rank = some 0 ↔ ∀ w ∈ v :: vs, w = 0 := by
+  have : cellImportance (v :: vs) cards rank = some (vs.foldl max v) := by
+    simp only [cellImportance, ifmax_eq]
+  rw [this, Option.some.injEq]
+  exact maximum_zero_iff_all_zero v vs hnn
+
+/-- without `IMP` keywords the importance is the entry of the data cards at the position of the card -/
+theorem data_card_importance (cards : List (Option β)) (rank : Nat) :
+    cellImportance ([] : List β) cards rank = cards.getD rank none := rfl
+end
+
+/-- the model the driver runs is the generic one at `Float` -/
 theorem two_cards_maximum (a b : Float) :
     importanceCards [[some a], [some b]] = .ok [some (if a < b then b else a)] := by
-  simp [importanceCards]
+  simp [importanceCards, importanceCardsG, rankMax, maxOpt]
 
 example : expandData (α := Nat) none [.num 1, .rep 2, .num 0, .rep 1] [] 0 =
     .ok ([some 1, some 1, some 1, some 0, some 0], 4) := by
